@@ -200,13 +200,14 @@ def main():
         "setup_cmd": "bin/setup",
         "hooks": {
             "guard": "smartcalc_verif",
-            "enable": "rustflags --cfg smartcalc_verif in harness/.cargo/config.toml (the harness builds /repo as a path dependency)",
+            "enable": "rustflags --cfg smartcalc_verif in harness/.cargo/config.toml (the harness builds /repo as a path dependency); the hook (src/verif.rs and guarded calls in src/tokinizer/rule_tokinizer/mod.rs) records the rule engine's steps per thread; it feeds only the non-gating Pipeline conformance reported in C01's evidence",
             "baseline_off_cmd": "cd /repo && cargo test --workspace --no-fail-fast --offline",
-            "source_commits": [],
+            "source_commits": ["4c682d7"],
             "add_only": True,
         },
         "engines": [
             {"name": "tlc", "path": "spec/", "serves_properties": [c["property_id"] for c in checks], "kind_free_text": "TLA+ specification checked / enumerated / used for trace validation by TLC 1.8.0"},
+            {"name": "pipeline", "path": "spec/Pipeline.tla", "serves_properties": ["C01"], "kind_free_text": "implementation-shaped model of the rule engine (scanner, rule order, restart schedule), model-checked on the actual rule table and bound to the code by the cfg(smartcalc_verif) hook and spec/PipelineTrace.tla; non-gating"},
             {"name": "harness", "path": "harness/", "serves_properties": [c["property_id"] for c in checks], "kind_free_text": "Rust executor linking /repo as a path dependency; worker processes with panic, crash and hang capture"},
         ],
         "checks": checks,
